@@ -21,6 +21,7 @@ from ..util import digest, exc_is_domain
 from ..worlds import pipeline as P
 
 PROPERTY = "C05"
+SCHED_PATH = ("pert", "sched")
 LEVEL = "exploration"
 QUICK_N = 256
 SCENARIO_TIMEOUT = 240
